@@ -1,4 +1,33 @@
-import SdModel.Model.Derive
+import SdModel.Lemmas.DeriveKnot
+
+/-!
+# C05 — `diff_ref` is observationally the same diff as `diff`
+
+In the model `TySem.diffRef a b` is `a.diff_ref(&b)` with every entry converted by the generated
+`Into<Diff>`; the `diff_ref` bodies are separate definitions per template (`FieldSem.diffRef`), as in the macro,
+and the correspondence check compares them with the real `diff_ref` + `Into`.  The theorem: for every type
+descriptor the two entry lists are EQUAL — same number of entries, same fields, same order, same payloads — hence
+they have the same effect on any base.
+-/
 namespace C05
-theorem placeholder : True := trivial
+open Derive
+
+/-- **C05**: converted `diff_ref` = `diff`, for every type and every pair of values -/
+theorem diffRef_eq_diff (t : Ty) (a b : Val) : (semTy t).diffRef a b = (semTy t).diff a b :=
+  (spec_ty t).ref_eq a b
+
+/-- same number of entries, for the same fields in the same order -/
+theorem same_fields (t : Ty) (a b : Val) :
+    ((semTy t).diffRef a b).map (·.1) = ((semTy t).diff a b).map (·.1) := by rw [diffRef_eq_diff]
+
+/-- same effect on `a` and on any other base (in particular any value equivalent to `a`) -/
+theorem same_effect (t : Ty) (a b x : Val) :
+    (semTy t).apply x ((semTy t).diffRef a b) = (semTy t).apply x ((semTy t).diff a b) := by rw [diffRef_eq_diff]
+
+/-- and the effect on a follower is the one C01/C02 describe -/
+theorem follower_effect (t : Ty) (a b f : Val) (ha : (relTy t).wt a) (hb : (relTy t).wt b) (hf : (relTy t).wt f)
+    (he : (relTy t).equiv a f) :
+    ∃ r, (semTy t).apply f ((semTy t).diffRef a b) = .ok r ∧ (relTy t).wt r ∧ (relTy t).post f b r := by
+  rw [diffRef_eq_diff]; exact (spec_ty t).follow a b f ha hb hf he
+
 end C05
